@@ -24,7 +24,9 @@ import (
 // realStoreScenario: the engine on the REAL ledgerstore.Store (instrumented like the engine: its synchronisation operations,
 // if it has any, are scheduling points) over the interpreted schema, under the controlled scheduler. The unchanged store keeps no
 // state between calls, so its calls are atomic steps; a store that memoises, pools or batches is explored like the engine.
-//   phase 1 (concurrent): the given requests; phase 2 (after all of them returned): a spend of everything account a must hold.
+//
+//	phase 1 (concurrent): the given requests; phase 2 (after all of them returned): a spend of everything account a must hold.
+//
 // Oracle: the spend succeeds, and the store's balance of a is 0 afterwards.
 const rwSchemaFile = "/repo/internal/storage/ledgerstore/migrations/0-init-schema.sql"
 
@@ -33,6 +35,30 @@ var (
 	rwTemplate     *pgmini.DB
 	rwTemplateErr  error
 )
+
+// rwPrewarmOnce: once per scenario name
+type onceByName struct {
+	mu   sync.Mutex
+	done map[string]bool
+}
+
+func (o *onceByName) Do(f func(), name string) {
+	o.mu.Lock()
+	defer o.mu.Unlock()
+	if o.done == nil {
+		o.done = map[string]bool{}
+	}
+	if !o.done[name] {
+		o.done[name] = true
+		f()
+	}
+}
+
+var rwPrewarmOnce onceByName
+
+func rwSpendAll(amount int64) string {
+	return fmt.Sprintf("send [X %d] (\n  source = @a\n  destination = @sink\n)\n", amount)
+}
 
 type rwReq struct {
 	Name    string
@@ -74,6 +100,20 @@ func realStoreScenario(name string, reqs []rwReq) *explore.Scenario {
 			msg := "undecided: the interpreter cannot load the schema / build the fixture: " + rwTemplateErr.Error()
 			return explore.Outcome{State: msg, Label: msg}
 		}
+		// every script the execution can meet is compiled beforehand: a cache miss takes another path through the (instrumented)
+		// compiler than a hit, and which of the two an execution sees must not depend on what ran before it in the process
+		rwPrewarmOnce.Do(func() {
+			sums := map[int64]bool{100: true}
+			for _, rq := range reqs {
+				_, _ = sharedCompiler.Compile(rq.Script)
+				for v := range sums {
+					sums[v+rq.Deposit] = true
+				}
+			}
+			for v := range sums {
+				_, _ = sharedCompiler.Compile(rwSpendAll(v))
+			}
+		}, name)
 		s := verifrt.New(r)
 		store := rwStore(rwTemplate.Clone())
 		defer func() { _ = store.GetDB().Close() }()
@@ -113,7 +153,7 @@ func realStoreScenario(name string, reqs []rwReq) *explore.Scenario {
 					expect += rq.Deposit
 				}
 			}
-			script := fmt.Sprintf("send [X %d] (\n  source = @a\n  destination = @sink\n)\n", expect)
+			script := rwSpendAll(expect)
 			_, err := cmd.CreateTransaction(ctx, command.Parameters{}, ledger.RunScript{Script: ledger.Script{Plain: script, Vars: map[string]string{}}})
 			if err != nil {
 				final = "error: " + err.Error()
